@@ -17,7 +17,17 @@ class ExpandingSuite(Suite):
 
     def gen(self, rng, tier):
         n = 70 if tier == "quick" else 1800
-        return [self.gen_one(rng) for _ in range(n)]
+        seqs = [self.gen_one(rng) for _ in range(n)]
+        # growth moments of larger geometries: distinct keys only, est+few insertions
+        for _ in range(3 if tier == "quick" else 40):
+            est = rng.choice([44, 50, 64, 100, 250]) if rng.random() < 0.7 else rng.randint(20, 300)
+            fpr = rng.choice([0.4, 0.3, 0.2, 0.1, 0.05])
+            kind = rng.choice(["xb", "rb"])
+            seq = [("new", 1, kind, est, fpr, "fnv", rng.choice([2, 3]))]
+            for i in range(est + rng.randint(2, 6)):
+                seq.append(("add", 1, "g%d-%d" % (i, rng.randrange(10**6)), False))
+            seqs.append(seq)
+        return seqs
 
     def gen_one(self, rng):
         kind = rng.choice(["xb", "rb"])
